@@ -656,7 +656,7 @@ def run(ctx: lib.Ctx) -> None:
     ctx.extra['phase_seconds'] = T
     rng = ctx.rng
     maxlen = ctx.n(9, 13)
-    ctx.rule = (f'syntactic: every name accepted by the macro regexes with len <= {maxlen} (plus all fixed names), each with its '
+    ctx.rule = (f'syntactic: every name accepted by the macro regexes with len <= {maxlen} (plus all fixed names and every well-formed PAIR/UNPAIR tree up to 6/8 leaves; thorough: ill-formed PAIR names of length 12-13 are a 25% sample), each with its '
                 'canonical annotation-free call and with PRNG-drawn annotations / argument counts, plus one-letter mutations of '
                 'accepted names; semantic: real Interpreter on PUSH…;MACRO for every well-formed accepted name (quick: PAIR-tree '
                 'names all, path names sampled) on PRNG-drawn stacks of matching shape and on perturbed stacks. '
@@ -678,8 +678,38 @@ def run(ctx: lib.Ctx) -> None:
         ctx.violation('a primitive name is matched by a macro regex', {'names': overlap, 'correspondence': 'C19/macros table'}, found=False)
 
     T['tables'] = round(time.time() - t0, 1)
+    # ---- corpus of past disagreements (run first) ------------------------------------------------
+    import glob
+    import json
+    import os
+
+    def tup(x):
+        return tuple(tup(y) for y in x) if isinstance(x, list) else x
+    for path in sorted(glob.glob(os.path.join(lib.VERIF, 'corpus', PROP, '*.json'))):
+        doc = json.load(open(path))
+        st = [(tup(t), tup(v)) for t, v in doc['stack']]
+        code, got = impl_run(doc['name'], doc['annots'], doc['args'], st)
+        want = ref_outcome(doc['name'], [parse_arg(t) for t in doc['args']], [v for _, v in st])
+        ctx.corpus_cases += 1
+        ctx.case(('corpus', code), kind='corpus', sample={'code': code, 'interpreter': repr(got)[:200]})
+        if want is not None and got != want:
+            ctx.violation(f"macro {doc['name']}: the interpreter result differs from the reference meaning (corpus case {os.path.basename(path)})",
+                          {'name': doc['name'], 'code': code, 'interpreter': got, 'reference_meaning': want,
+                           'repro': f'Interpreter().execute({code!r})'}, found=True)
+            violations += 1
+
     # ---- (1) syntactic correspondence ----------------------------------------------------------
     names = fixed_names() + list(family_names(maxlen))
+    if ctx.thorough:
+        # names of length 12-13 matched by the PAIR regexes that are NOT trees (236k of them, no reference meaning):
+        # a 25 % PRNG sample instead of all, to stay inside the time budget; everything else stays exhaustive
+        def keep(n):
+            if len(n) < 12 or not re.fullmatch(r'(UN)?P[PAI]{3,}R', n):
+                return True
+            return wf_tree(n[2:] if n.startswith('UN') else n) is not None or rng.random() < 0.25
+        before = len(names)
+        names = [n for n in names if keep(n)]
+        ctx.extra['illformed_pair_names_len_12_13_sampled_out'] = before - len(names)
     # well-formed PAIR / UNPAIR trees are few: go deeper than the length bound for them (every tree shape)
     max_leaves = ctx.n(6, 8)
     seen = set(names)
@@ -798,14 +828,14 @@ def run(ctx: lib.Ctx) -> None:
             body = n[2:] if n.startswith('UN') else n
             if wf_tree(body) is not None:
                 sem_names.append(n)
-            elif len(n) <= 7 or rng.random() < ctx.n(1, 2) / 100:
+            elif len(n) <= 7 or rng.random() < ctx.n(10, 3) / 1000:
                 sem_names.append(n)
         elif re.fullmatch(r'C[AD]+R', n):
             if len(n) <= ctx.n(6, 9) or rng.random() < ctx.n(8, 20) / 100:
                 sem_names.append(n)
         else:
             sem_names.append(n)
-    reps = ctx.n(2, 6)
+    reps = ctx.n(2, 4)
     cases, meta = [], []
     for name in sem_names:
         for rep_i in range(reps):
